@@ -33,8 +33,9 @@ import (
 // (A5) ToUnicode chains whose levels have different code spaces: GetMapping against Lookup on
 //      every entry of every level, both directions, before Embed and after Extract.  Class key
 //      tu-getmapping-ignores-parent-codespace (`CC tugetmap`, theorem isCodeOf_tuChain).
-// (A4) not a C13 oracle, a model tie only: a stream whose /UseCMap names an unknown CMap is
-//      refused by Extract (`CC useres name other` = error).
+// (A4) not a C13 oracle, a model tie only: a stream whose /UseCMap names an unknown CMap is read
+//      without a parent (`CC useres name other` = none; the unknown name is a MalformedFileError
+//      which Extract tolerates, since 34bbc85; before that the whole extraction failed).
 
 func init() {
 	addRun("C13", "the stream text of the CMap and ToUnicode writers: code spaces of 99-256 unmergeable ranges and maps of 100-300 isolated entries (every begin...end block must have at most 100 entries and the declared count, the file must read back), ToUnicode runs whose texts cross a multiple of 256 (BMP, CJK, astral, U+FFFF to U+10000, with and without a common prefix; the single-destination bfrange form must satisfy ISO 32000-2 9.10.3 and a reader incrementing the last byte must recover every text), 60-140 array-valued bfrange entries of up to 256 strings (3k+3+m operand stack slots per entry, at most 500), ToUnicode parent chains with a different code space on every level (GetMapping against Lookup for every entry of every level, both directions, before Embed and after Extract). A case is one map or chain; always non-trivial; distinct by wire form.", runC13Audit)
